@@ -22,16 +22,18 @@ theorem valid_depth : Generated.params.validDepth = true := by decide
 theorem valid_bitset : Generated.params.validBitset = true := by decide
 theorem valid_span : Generated.params.validSpan = true := by decide
 theorem valid_binaryGuard : Generated.params.mapBinaryGuard = true := by decide
+theorem valid_binaryPtr : Generated.params.binarySeesThroughPtr = true := by decide
 
 theorem params_valid : Generated.params.valid = true := by
   simp only [Params.valid, valid_sizes, valid_simple, valid_container, valid_headers, valid_list,
     valid_map, valid_minWire, valid_minWireFixed, valid_skip, valid_depth, valid_bitset, valid_span,
-    valid_binaryGuard, Bool.and_self]
+    valid_binaryGuard, valid_binaryPtr, Bool.and_self]
 
 theorem facts_legacyInert : Generated.facts.legacyInert = true := by decide
 theorem facts_envParsing : Generated.facts.envParsing = true := by decide
 theorem facts_recursionDiscipline : Generated.facts.recursionDiscipline = true := by decide
 theorem facts_lockDiscipline : Generated.facts.lockDiscipline = true := by decide
+theorem facts_allocationDiscipline : Generated.facts.allocationDiscipline = true := by decide
 theorem facts_rollback : Generated.facts.rollbackOnFailedBuild = true := by decide
 theorem facts_buildProtocol : Generated.facts.buildProtocol = true := by decide
 theorem facts_bufferContract : Generated.facts.bufferContract = true := by decide
